@@ -210,6 +210,23 @@ def check_template(template, repo, workdir, prop, exclude=None, rlimit=None, thr
     return res
 
 
+def unit_searches(template, prop):
+    """[(unit id, native search name)] declared by `//@unit` lines of a template for this property (read from the template text, so it
+    works even when the extraction or Verus itself fails)"""
+    out = []
+    try:
+        with open(template) as f:
+            for ln in f:
+                m = re.match(r"\s*//@unit\s+(\S+)\s+(.*)$", ln)
+                if m:
+                    kv = dict(re.findall(r"(\w+)=(\S+)", m.group(2)))
+                    if prop in kv.get("prop", "").split(",") and kv.get("search"):
+                        out.append((m.group(1), kv["search"]))
+    except OSError:
+        pass
+    return out
+
+
 def scan_assumptions(paths):
     """mechanical scan for trusted constructs in contract files"""
     pats = [r"\baxiom\b", r"assume_specification", r"external_body", r"\bassume\s*\(", r"\badmit\s*\(",
